@@ -15,7 +15,7 @@ import cgroup
 from cprop import CompilerProp
 
 ID = "C02"
-LEAN_MODULES = ["FaxVerif.C02.Theorems", "FaxVerif.C02.TheoremsCursor", "FaxVerif.C02.TheoremsWf"]
+LEAN_MODULES = ["FaxVerif.C02.Theorems", "FaxVerif.C02.TheoremsCursor", "FaxVerif.C02.TheoremsWf", "FaxVerif.C02.TheoremsParse", "FaxVerif.C02.TheoremsParseExpr", "FaxVerif.Cpp.ParseSpec"]
 LEAN_SOURCES = ["FaxVerif/C02", "FaxVerif/Cpp", "FaxVerif/Gen"]
 DRIVER = cgroup.DRIVER
 SETUP_MODULES = cgroup.DRIVER_IMPORTS  # what the driver imports
@@ -32,7 +32,10 @@ THEOREMS = [
     "starts_with_is_prefix starts_with_stack starts_with_top starts_with_refl starts_with_trans starts_with_antisymm "
     "deepest_scope_spec deepest_scope_incomparable deepest_scope_equal up_is_dropLast up_one up_other nothing_lost added_last "
     "insertion_order emit_block_shape emit_shape declared_encloses declared_encloses_block save_set_identity save_set_roundtrip "
-    "cursor_chain cursor_root cursor_path_counterexample cursor_path_partial includes_first_use_order includes_nodup_mem").split()]
+    "cursor_chain cursor_root cursor_path_counterexample cursor_path_partial includes_first_use_order includes_nodup_mem "
+    "parse_render_stmt parse_render_exact render_injective render_parse_render render_injective_needs_wf "
+    "parseToks_render toksE_injective lex_render parseExpr_render parse_render render_injective_wf parseExpr_render_partial "
+    "exprOk_of_wfT_lexOk wfT_needed_counterexample").split()]
 RULE = (
     "type-directed random queries over the synthetic data model (see C05) on the three backends; per case: file set, mode bits, "
     "template residue, parse of class declarations and booking lines, the verified checkers WellFormed and UniqueNames on the "
@@ -41,11 +44,20 @@ RULE = (
     "statement or block, below=, pop, save / set scope token, scope[-k], declare at cursor or token, includes, libraries, "
     "starts_with, deepest_scope; a share of erroneous calls) on the real classes vs the Lean state machine: every return value / "
     "exception class, the emitted text (exact), cursor and token identities; plus the text oracles nothing_lost and "
-    "declared_encloses on the REAL text."
+    "declared_encloses on the REAL text. "
+    "Stream 'parse-tie': for every program the other streams translated (three backends; per-event body and booking block): the "
+    "statement tree of the Lean parser (lean/FaxVerif/Cpp/Parse.lean + attachS) = the decoded tree of tools/cparse.py + "
+    "qgen._attach_retrieve_types (canonical JSON, exact); Lean printer renderLines = Gen.renderS on that tree; render(parse text) = "
+    "text line by line modulo blanks, parentheses, `T x = e` / `T x (e)` and C escapes; where StmtOk holds (counted), parse(render t) "
+    "= t; class declarations classDecl = cparse.parse_class_decl; plus generated expression texts WITHOUT redundant parentheses and "
+    "damaged statement lines (600 quick / 12000 thorough): Lean parseExpr / parseLine = cparse (precedence and the fall-back to "
+    "opaque / line)."
 )
 TRUSTED_BASE = [
     "C++ scoping/initialisation rules as modelled by lean/FaxVerif/Cpp/Check.lean (flat environment + scoped analysis state)",
-    "tools/cparse.py; the typing of member calls against the declared EDM is checked by g++ in the thorough tier only",
+    "tools/cparse.py (still what the harness of C01-C05 feeds the driver with) — now tied on every run to the parser written in Lean "
+    "(lean/FaxVerif/Cpp/Parse.lean), for which the round trip with the printer is proved (C02.parse_render_stmt, parseToks_render); "
+    "the typing of member calls against the declared EDM is checked by g++ in the thorough tier only",
     "cursor state machine (lean/FaxVerif/C02/CursorModel.lean): hand model of generated_code.py, util_scope.py, statement.py tied by tools/c02_cursor.py (operation sequences on the real classes vs the model, exact text); that the translator only ever uses the cursor through these calls is by reading",
 ]
 ASSUMPTIONS = ["the experiment headers declare what the metadata says (the mock EDM is generated from the same declarations)"]
@@ -63,15 +75,29 @@ LEVEL_TEXT = (
     "the prefix order, deepest_scope / scope[-k] as specified, no statement is ever lost and insertion order is kept (nothing_lost, "
     "insertion_order), the emitted text has the block shape (emit_shape), and a variable declared at a scope token lies, in the "
     "emitted text, in a block that lexically encloses and precedes every statement added while the cursor's scope starts with that "
-    "token (declared_encloses) — tied to the real classes by differential execution of operation sequences on every run."
+    "token (declared_encloses) — tied to the real classes by differential execution of operation sequences on every run. "
+    "Text -> statement tree: the parser of the emitted line language is a total Lean function (tokenizer, precedence climbing with the "
+    "C++ precedence of the emitted subset, statement lines, block structure, booking lines, class declarations) with theorems for "
+    "EVERY statement tree and expression: parse_render — parsing the printed block returns exactly the tree, under the decidable "
+    "syntactic predicate ListWf (identifiers, a type the declaration pattern reads back, names / numerals that are one token, strings "
+    "without quote and backslash, expressions of the precedence-safe class wfT); hence the printer is injective on such trees "
+    "(render_injective_wf) and render after parse is the identity on printed text (render_parse_render); expression level: "
+    "parseToks_render (tokens -> tree: unary, the 13 binary operators on 6 levels, dereference, member chains, calls, casts, argument "
+    "lists), lex_render (characters -> tokens), parseExpr_render. The Lean parser is compared with tools/cparse.py on the real text "
+    "of every generated program on every run."
 )
 LEVEL_NOTE = (
     "Proved: soundness of WellFormed w.r.t. the modelled semantics; that the translator model's output is ALWAYS accepted (fragment F0-lite). Sampled: that the real translator's output beyond the fragment passes the checker (every generated query). "
     "Type consistency of uses against the declared data model is not proved; thorough tier compiles against a generated mock EDM. "
     "The checker is path-sensitive enough for the First() idiom (flags known true, guard facts `flag false => captured value "
-    "initialised`, loop invariants checked by re-running the body): programs using First() are covered by the theorem too."
+    "initialised`, loop invariants checked by re-running the body): programs using First() are covered by the theorem too. "
+    "Parser: proved is that parser and printer are inverse on well-formed trees; that the Lean parser reads the REAL text the way "
+    "tools/cparse.py does (which the harness of C01-C05 still uses) is compared on every run (every program, plus generated "
+    "unparenthesised / damaged texts), not proved. Outside the theorems: trees the printer cannot spell (C escapes inside string "
+    "literals, negative integer literals, member access on a dereference) — measured on every run: ~97 % of real programs satisfy "
+    "StmtWf, > 99 % of real expressions exprWf; character classes are ASCII (Python's \\w / \\d / \\s also accept non-ASCII)."
 )
-TECHNIQUE = "Lean 4 soundness proof of a static well-formedness checker evaluated on the implementation's output + package completeness checks"
+TECHNIQUE = "Lean 4 soundness proof of a static well-formedness checker evaluated on the implementation's output + package completeness checks; Lean parser of the emitted text with round-trip theorems, N-version tie with the Python parser on every program"
 DESIGN_REF = "DESIGN.md §4 C02"
 
 RESIDUE = re.compile(r"\{\{|\}\}|\{%|%\}|\{#|#\}")
@@ -124,7 +150,12 @@ def judge(c):
     return None
 
 
+_PROGRAMS = []  # every program the streams translated: input of the parse-tie stream
+
+
 def after(ctx, c):
+    if c.result["ok"]:
+        _PROGRAMS.append((c.backend, c.source(), c.result))
     if c.result["ok"] and c.answer and "bad" not in c.answer:
         if c.answer.get("wf"):
             ctx.count("WellFormed:accepted")
@@ -141,6 +172,10 @@ def run(ctx):
     import c02_cursor
 
     c02_cursor.run_stream(ctx, 400 if ctx.tier == "quick" else 4000, report=True)
+    import c02_parsetie
+
+    progs, _PROGRAMS[:] = list(_PROGRAMS), []
+    c02_parsetie.run_stream(ctx, progs, 600 if ctx.tier == "quick" else 12000, report=True)
 
 
 def replay(ctx, rep):
